@@ -195,7 +195,7 @@ def validate(work, lines, tag="spy", flood_ids=()):
         for k in ("distinct", "generated", "wall_s"):
             r[k] += r3[k]
         r["flood_validation_s"] = round(r3["wall_s"], 1)
-    redo = [t for t, bad in res.items() if bad is not None and bad["ev"] != "Timeout" and t not in flood_ids]
+    redo = [t for t, bad in res.items() if bad is not None and bad["ev"] not in ("Timeout", "Panic") and t not in flood_ids]
     if redo:
         sub = [ln for ln in lines if ln["t"] in set(redo)]
         res2, r2 = _validate(work, sub, "Trace_Spy_full.cfg")
@@ -237,8 +237,8 @@ def _validate(work, lines, cfg):
     with open(os.path.join(sdir, "trace.ndjson"), "w") as fh:
         for ln in lines:
             slim = dict(ln)
-            if ln["ev"] == "Timeout":
-                slim = {"t": ln["t"], "n": ln["n"], "ev": "Timeout", "a": {"op": ln["a"].get("op")}, "s": {}}
+            if ln["ev"] in ("Timeout", "Panic"):
+                slim = {"t": ln["t"], "n": ln["n"], "ev": ln["ev"], "a": {"op": ln["a"].get("op", ln["a"].get("call"))}, "s": {}}
             fh.write(json.dumps(slim) + "\n")
     r = vlib.tlc(work, "Trace_Spy", cfg, workers=1, timeout=1800, heap="12g")
     fin = vlib.tlc_prints(r["out"], "FINISHED")
@@ -266,6 +266,11 @@ def _norm(s):
     return re.sub(r"[^A-Za-z0-9.*()]+", "-", s).strip("-")
 
 
+def panic_signature(ln):
+    val = re.sub(r"0x[0-9a-f]+", "0x", ln["a"].get("value", ""))
+    return "panic/%s/%s" % (ln["a"].get("call"), re.sub(r"[^A-Za-z0-9]+", "-", val)[:60].strip("-"))
+
+
 def stall_signature(ln):
     w = ln["a"].get("where", {})
     return "stall/%s/%s@%s" % (ln["a"].get("op"), _norm(w.get("state", "?")), _norm(w.get("fn", "?")))
@@ -277,6 +282,8 @@ def classify_reject(trace_lines, bad):
     ev = bad["ev"]
     if ev == "Timeout":
         return stall_signature(bad)
+    if ev == "Panic":
+        return panic_signature(bad)
     pubs, filt, got, dupf = {}, {}, {}, {}
     for ln in trace_lines:
         if ln is bad:
